@@ -7,3 +7,10 @@ pub use ordering_sender::OrderingSender;
 pub use unordered_receiver::{
     DeserializeError, EndOfStreamError, Error as UnorderedReceiverError, UnorderedReceiver,
 };
+
+/// Verification harness with access to the private buffer types (`ipa-verif` feature only).
+#[cfg(all(test, feature = "ipa-verif"))]
+#[allow(clippy::all, clippy::pedantic, dead_code, unused_imports)]
+pub(crate) mod verif_buffers {
+    include!(concat!(env!("IPA_VERIF_DIR"), "/harness/buffers.rs"));
+}
